@@ -50,6 +50,9 @@ func TestC20(t *testing.T) {
 				{"RunWorkflow", func(r *vrun.EngineRequest) { r.UseRunWorkflow = true }},
 				{"relative context, cwd elsewhere", func(r *vrun.EngineRequest) { r.RelativeContext, r.Chdir = true, "elsewhere" }},
 				{"relative context, cwd = context", func(r *vrun.EngineRequest) { r.RelativeContext, r.Chdir = true, "scratch" }},
+				{"relative context, working directory changed after the context was loaded", func(r *vrun.EngineRequest) {
+					r.RelativeContext, r.Chdir, r.ChdirAfterLoad = true, "scratch", "elsewhere"
+				}},
 				{"in-memory main file", func(r *vrun.EngineRequest) { r.InMemory = true }},
 				{"in-memory main file + sub-workflows preloaded", func(r *vrun.EngineRequest) { r.InMemory, r.ExtraInMemory = true, subNames }},
 			}
